@@ -1,15 +1,303 @@
-import Blue.Proofs.WcqV
 import Blue.Proofs.Lru
+import Blue.Proofs.LruSpec
 import Blue.Proofs.WaitList
+import Blue.Proofs.WaitListSlots
 import Blue.Proofs.Wcq
+import Blue.Proofs.WcqV
 import Blue.Proofs.WcqWake
-/-! Property C18: the theorems the check builds and audits (spike inventory; the build phase
-    completes the list from DESIGN Appendix C.0). -/
-#print axioms Blue.Wcq.core_sees_inputs_once_in_order
-#print axioms Blue.Wcq.own_result
-#print axioms Blue.Wcq.never_panics
-#print axioms Blue.WcqWake.never_stuck
-#print axioms Blue.WcqWake.leader_forgets_notify_head_stuck
-#print axioms Blue.WcqV.own_result
-#print axioms Blue.WcqV.core_sees_inputs_once_in_order
-#print axioms Blue.WcqV.never_panics
+import Blue.Proofs.WcqWakeMutants
+import Blue.Proofs.WcqWakeProgress
+import Blue.Proofs.ConstsTieC18
+/-! # Property C18 — the coalescing queue runs each request once, in order, returning its own
+    result; the wait list has exactly one head; the LRU cache is a sequential LRU map with exact
+    size accounting
+
+Property theorems only (helper lemmas live in `Blue/Proofs/{Lru,LruSpec,WaitList,Wcq,WcqV,WcqWake}.lean`).
+
+* `Blue.Lru` — `sync42::lru::LeastRecentlyUsedCache` under its mutex: the recency list (most recent
+  first) and the accounted `size` field, updated as the code updates it.  Overwriting a key
+  replaces the value in place and does **not** refresh recency (that is what `insert_helper` does).
+* `Blue.WaitList` — `sync42::wait_list::WaitList` under its state mutex: ring of `n` slots,
+  `head`/`tail` counters, `linked` flags, ghost list `live` of the guards that exist.
+* `Blue.Wcq` / `Blue.WcqV` — `WorkCoalescingQueue::do_work`, one step per critical section, for every
+  interleaving; in `WcqV` the core's answers are arbitrary values (as for the log's write core).
+* `Blue.WcqWake` — who parks under which mutex and who notifies whom.
+
+The harness replays every recorded run of the real queue through `Blue.WcqV.step` (every event
+must be enabled), every wait-list sequence through `Blue.WaitList.step` and every cache sequence
+through the `Blue.Lru` operations. -/
+namespace Blue.Props.C18
+
+/-! ## LRU cache -/
+section lru
+open Blue.Lru
+variable {K V : Type} [DecidableEq K] (sz : V → Nat)
+
+/-- every operation keeps the cache a map (no key twice) whose accounted size is the sum of its
+    entries' sizes; a new cache is one -/
+theorem lru_inv_preserved :
+    Inv sz (new cap : Cache K V)
+    ∧ (∀ (c : Cache K V) k v, Inv sz c → Inv sz (insert sz c k v))
+    ∧ (∀ (c : Cache K V) k v, Inv sz c → Inv sz (insertNoEvict sz c k v))
+    ∧ (∀ (c : Cache K V) k, Inv sz c → Inv sz (lookup c k).2)
+    ∧ (∀ (c : Cache K V) k, Inv sz c → Inv sz (remove sz c k))
+    ∧ (∀ (c : Cache K V), Inv sz c → Inv sz (pop sz c).2) :=
+  ⟨inv_new sz cap, fun _ k v h => inv_insert sz h k v, fun _ k v h => inv_insertNoEvict sz h k v,
+   fun _ k h => inv_lookup sz h k, fun _ k h => inv_remove sz h k, fun _ h => inv_pop sz h⟩
+
+/-- the same for whole operation sequences on a fresh cache -/
+theorem lru_inv_run (cap : Nat) (ops : List (Op K V)) : Inv sz (run sz (new cap : Cache K V) ops) :=
+  Blue.Lru.inv_run sz (inv_new sz cap) ops
+
+/-- an evicting insert leaves the cache within its capacity (an entry larger than the capacity
+    evicts everything, itself included) -/
+theorem insert_within_capacity {c : Cache K V} (h : Inv sz c) (k : K) (v : V) :
+    (insert sz c k v).size ≤ c.capacity := Blue.Lru.insert_within_capacity sz h k v
+
+/-- a stored value is what `lookup` returns -/
+theorem lookup_hit (c : Cache K V) (k : K) (v : V) (h : (k, v) ∈ c.entries)
+    (hn : (c.entries.map (·.1)).Nodup) : (lookup c k).1 = some v := Blue.Lru.lookup_hit c k v h hn
+
+/-- the cache is a map: `insert_helper` (both inserts before eviction) is a map update, `lookup`
+    reads the map and leaves it unchanged, `remove` deletes the key -/
+theorem lru_map_semantics (c : Cache K V) (k k' : K) (v : V) :
+    (find k' (insertHelper sz c k v).entries = if k' = k then some v else find k' c.entries)
+    ∧ (lookup c k).1 = find k c.entries
+    ∧ find k' (lookup c k).2.entries = find k' c.entries
+    ∧ (find k' (remove sz c k).entries = if k' = k then none else find k' c.entries) :=
+  ⟨find_insertHelper sz c k k' v, (find_lookup c k k').1, (find_lookup c k k').2, find_remove sz c k k'⟩
+
+/-- recency: a hit moves the entry to the front and keeps the order of the others; an evicting
+    insert keeps a *prefix* of the recency list (it drops least recently used entries only); `pop`
+    returns and removes the last one -/
+theorem lru_recency (c : Cache K V) (k : K) (v : V) :
+    (∀ w, find k c.entries = some w → (lookup c k).2.entries = (k, w) :: c.entries.filter (fun e => e.1 ≠ k))
+    ∧ (insert sz c k v).entries <+: (insertHelper sz c k v).entries
+    ∧ (∀ e, c.entries.getLast? = some e → (pop sz c).1 = some e ∧ c.entries = (pop sz c).2.entries ++ [e])
+    ∧ (c.entries = [] → (pop sz c).1 = none) :=
+  ⟨fun w h => lookup_recency c k w h, insert_prefix sz c k v,
+   fun e h => ⟨(pop_least_recent sz c e h).1, (pop_least_recent sz c e h).2.2⟩,
+   fun h => (pop_empty sz c h).1⟩
+
+/-- the accounted size exceeds the capacity only by entries inserted with eviction disabled:
+    after every operation sequence on a fresh cache, `size ≤ capacity +` the sizes handed to
+    `insert_no_evict` since the last evicting `insert` -/
+theorem size_exceeds_capacity_only_by_no_evict (cap : Nat) (ops : List (Op K V)) :
+    (run sz (new cap : Cache K V) ops).size ≤ cap + slackRun sz 0 ops := size_run_le sz cap ops
+
+/-! non-vacuity: a concrete cache of capacity 5 meets `Inv`; an evicting insert of a size-3 entry
+    drops the least recently used entry `2`, and an over-sized no-evict insert exceeds the capacity -/
+example : Inv (fun v : Nat => v) (new 5 : Cache Nat Nat) := inv_new _ 5
+example : (run (fun v : Nat => v) (new 5 : Cache Nat Nat)
+    [.insert 1 3, .insert 2 2, .lookup 1, .insert 3 2]).entries = [(3, 2), (1, 3)] := by decide
+/-- overwriting does not refresh recency: key `1`, overwritten last, is still the one evicted -/
+example : (run (fun v : Nat => v) (new 5 : Cache Nat Nat)
+    [.insert 1 2, .insert 2 2, .insert 1 1, .insert 3 3]).entries = [(3, 3), (2, 2)] := by decide
+example : (run (fun v : Nat => v) (new 5 : Cache Nat Nat) [.insert 1 3, .insertNoEvict 2 9]).size = 12
+    ∧ slackRun (fun v : Nat => v) 0 [Op.insert 1 3, Op.insertNoEvict (K := Nat) 2 9] = 9 := by decide
+example : (lookup (⟨5, 3, [(1, 3)]⟩ : Cache Nat Nat) 1).1 = some 3 :=
+  lookup_hit _ 1 3 (by simp) (by simp)
+end lru
+
+/-! ## wait list -/
+section waitlist
+open Blue.WaitList
+
+/-- the invariant (window bounds, flags = guards inside the window, `head = tail` or the head is
+    live — the code's `assert_invariants`) holds after every sequence of `link` / `unlink` in any
+    order, including `link`s on a full ring (which wait) -/
+theorem waitlist_inv_run (n : Nat) (hn : 0 < n) (ops : List Op) : Inv (ops.foldl step (init n)) :=
+  inv_run n hn ops
+
+/-- … in particular for the ring size the source defines (`sync42::MAX_CONCURRENCY`) -/
+theorem waitlist_inv_run_source (ops : List Op) :
+    Inv (ops.foldl step (init Blue.Generated.sync42MaxConcurrency)) :=
+  inv_run _ Blue.ConstsTie.sync42_slots_pos ops
+
+/-- whenever a guard exists, the head is a live guard and the oldest one -/
+theorem head_is_oldest {s : St} (h : Inv s) (hne : s.live ≠ []) :
+    s.head ∈ s.live ∧ ∀ j ∈ s.live, s.head ≤ j := Blue.WaitList.head_is_oldest h hne
+
+/-- exactly one linked waiter is head, in every reachable state -/
+theorem exactly_one_head (n : Nat) (hn : 0 < n) (ops : List Op)
+    (hne : (ops.foldl step (init n)).live ≠ []) :
+    ∃ j ∈ (ops.foldl step (init n)).live, isHead (ops.foldl step (init n)) j = true
+      ∧ (∀ j' ∈ (ops.foldl step (init n)).live, j ≤ j')
+      ∧ ∀ j' ∈ (ops.foldl step (init n)).live, isHead (ops.foldl step (init n)) j' = true → j' = j := by
+  have h := inv_run n hn ops
+  generalize ops.foldl step (init n) = s at h hne
+  obtain ⟨h1, h2⟩ := Blue.WaitList.head_is_oldest h hne
+  refine ⟨s.head, h1, by simp [isHead], h2, ?_⟩
+  intro j' _ hj
+  simpa [isHead] using hj
+
+/-- when a waiter (the head or any other) unlinks, the head afterwards is the oldest of the
+    waiters that remain: the head position is handed to the next oldest waiter -/
+theorem head_handoff (n : Nat) (hn : 0 < n) (ops : List Op) (i : Nat)
+    (hi : i ∈ (ops.foldl step (init n)).live) :
+    let s' := step (ops.foldl step (init n)) (.unlink i)
+    s'.live = (ops.foldl step (init n)).live.filter (· ≠ i)
+      ∧ (s'.live ≠ [] → s'.head ∈ s'.live ∧ ∀ j ∈ s'.live, s'.head ≤ j) := by
+  have h' : Inv ((ops ++ [Op.unlink i]).foldl step (init n)) := inv_run n hn _
+  rw [List.foldl_append] at h'
+  simp only [List.foldl_cons, List.foldl_nil] at h'
+  refine ⟨?_, fun hne => Blue.WaitList.head_is_oldest h' hne⟩
+  generalize ops.foldl step (init n) = s at hi
+  simp only [step, if_pos hi, unlink]
+  have : ∀ (f : Nat) (t : St), (advance f t).live = t.live := by
+    intro f
+    induction f with
+    | zero => intro t; rfl
+    | succ f ih => intro t; unfold advance; split
+                   · rw [ih]
+                   · rfl
+  rw [this]
+
+/-- slots are reused only after `head` has passed them: in every reachable state a `link` that goes
+    through takes index `tail`, whose slot belongs to no guard that still exists; and a `link` waits
+    exactly when the ring is full -/
+theorem slot_reuse_is_safe (n : Nat) (hn : 0 < n) (ops : List Op) :
+    let s := ops.foldl step (init n)
+    (∀ s' idx, link s = some (s', idx) → idx = s.tail ∧ ∀ j ∈ s.live, j % s.n ≠ idx % s.n)
+      ∧ (link s = none ↔ s.head + s.n ≤ s.tail) :=
+  ⟨fun _ _ hl => link_slot_fresh (inv_run n hn ops) hl, link_blocks_iff_full _⟩
+
+/-! non-vacuity: four slots, five link attempts (the fifth waits), the head leaves last of three -/
+example :
+    let s := [Op.link, .link, .link, .link, .link, .unlink 1, .unlink 2, .unlink 0].foldl step (init 4)
+    s.head = 3 ∧ s.tail = 4 ∧ s.live = [3] := by decide
+example : ([Op.link, .link].foldl step (init 4)).live ≠ [] := by decide
+end waitlist
+
+/-! ## coalescing queue: safety for every interleaving -/
+section wcq
+
+/-- the core is given each caller's input exactly once, in the order the callers linked
+    (batches are contiguous runs) — core answering input `x` with `out x` -/
+theorem core_sees_inputs_once_in_order (out : Nat → Nat) (evs : List Blue.Wcq.Ev) :
+    ∃ m, (evs.foldl (Blue.Wcq.step out) Blue.Wcq.init).log = List.range m :=
+  Blue.Wcq.core_sees_inputs_once_in_order out evs
+
+/-- a call that has returned returned the output for its own input -/
+theorem own_result (out : Nat → Nat) (evs : List Blue.Wcq.Ev) (i : Nat) (e : Blue.Wcq.Ent) (o : Nat)
+    (he : (evs.foldl (Blue.Wcq.step out) Blue.Wcq.init).ents[i]? = some e) (hr : e.ret = some o) :
+    o = out i := Blue.Wcq.own_result out evs i e o he hr
+
+/-- both `panic!`s of `do_work` and its "stolen at head of line" branch are unreachable -/
+theorem never_panics (out : Nat → Nat) (evs : List Blue.Wcq.Ev) :
+    (evs.foldl (Blue.Wcq.step out) Blue.Wcq.init).panicked = false := Blue.Wcq.never_panics out evs
+
+/-- the same three with the core's answers arbitrary (carried by the `deliver` events; this is
+    the model the recorded runs of the real queue are replayed through) -/
+theorem core_sees_inputs_once_in_order_v (evs : List Blue.WcqV.Ev) :
+    ∃ m, (evs.foldl Blue.WcqV.step Blue.WcqV.init).log = List.range m :=
+  Blue.WcqV.core_sees_inputs_once_in_order evs
+
+theorem own_result_v (evs : List Blue.WcqV.Ev) (i : Nat) (e : Blue.WcqV.Ent) (o : Nat)
+    (he : (evs.foldl Blue.WcqV.step Blue.WcqV.init).ents[i]? = some e) (hr : e.ret = some o) :
+    Blue.WcqV.look (evs.foldl Blue.WcqV.step Blue.WcqV.init).prod i = some o :=
+  Blue.WcqV.own_result evs i e o he hr
+
+theorem never_panics_v (evs : List Blue.WcqV.Ev) :
+    (evs.foldl Blue.WcqV.step Blue.WcqV.init).panicked = false := Blue.WcqV.never_panics evs
+
+/-! non-vacuity: three callers, a batch of two, the follower leaves before the leader, the third
+    leads alone; every call has returned (the hypotheses of `own_result` are met by all three) -/
+example :
+    let s := [Blue.Wcq.Ev.link, .link, .link, .lead 0 2, .deliver 0, .deliver 0, .observe 1, .finish 0,
+              .lead 2 1, .deliver 2, .finish 2].foldl (Blue.Wcq.step (· * 10)) Blue.Wcq.init
+    s.log = [0, 1, 2] ∧ s.ents.map (·.ret) = [some 0, some 10, some 20] ∧ s.doingWork = false := by
+  decide
+example :
+    let s := [Blue.WcqV.Ev.link, .link, .link, .lead 0 2, .deliver 0 77, .deliver 0 77, .observe 1, .finish 0,
+              .lead 2 1, .deliver 2 99, .finish 2].foldl Blue.WcqV.step Blue.WcqV.init
+    s.log = [0, 1, 2] ∧ s.ents.map (·.ret) = [some 77, some 77, some 99] ∧ s.doingWork = false := by
+  decide
+end wcq
+
+/-! ## coalescing queue: wake-ups -/
+section wake
+open Blue.WcqWake
+
+/-- no lost wake-up (deadlock freedom): under every interleaving (including a member that is
+    handed its output between reading its state and parking, and spurious wake-ups) the queue never
+    reaches a state in which a caller is still linked while every linked caller is parked, no leader
+    is at work, no `notify_head` is on its way and nobody is about to park -/
+theorem never_stuck (evs : List Ev) : stuck (evs.foldl step init) = false :=
+  Blue.WcqWake.never_stuck evs
+
+/-- no call blocks forever: in every reachable state, (1) every run of steps of the callers and
+    the leader (everything except new arrivals and spurious wake-ups) is finite — each such step
+    strictly decreases the lexicographic measure (linked callers; leader phase + undelivered outputs
+    + pending notifications + awake callers + caller about to park) — and (2) while a caller is
+    linked, such a step is enabled.  Hence a scheduler that keeps running enabled steps returns
+    every call after finitely many steps.
+
+    `_partial`: what is missing for the full statement is the interleaving with an *unbounded*
+    stream of new arrivals and spurious wake-ups (both only add bounded work: FIFO order means a
+    call is overtaken by nobody, DESIGN C.38) and scheduler fairness, which stays an assumption; a
+    core that yields fewer outputs than inputs leaves stolen callers waiting by design. -/
+theorem every_call_returns_partial (evs : List Ev) :
+    Acc ProgressStep (evs.foldl step init)
+      ∧ ((evs.foldl step init).ents.any (·.linked) = true →
+          ∃ ev, progressEv ev = true ∧ step (evs.foldl step init) ev ≠ evs.foldl step init) :=
+  calls_return evs
+
+/-- the protocol needs the leader's final `notify_head`: without it two callers suffice to get
+    stuck (the Appendix-B mutant, as a theorem) -/
+theorem leader_forgets_notify_head_stuck :
+    stuck ([Ev.link, .link, .check 0 1, .check 1 0, .park, .deliver, .leaderUnlink, .leaderClear].foldl
+      stepNoNotify init) = true := Blue.WcqWake.leader_forgets_notify_head_stuck
+
+/-- … and it needs the *followers'* `notify_head` too: a member that was handed its output in the
+    window before it parked is woken only by the `notify_head` of the caller that unlinks ahead of
+    it.  (The window is a few instructions wide in the code: the harness does not hit it, the
+    model does; under the real protocol the same schedule is not stuck.) -/
+theorem follower_forgets_notify_head_stuck :
+    stuck ([Ev.link, .link, .link, .check 0 3, .check 2 0, .deliver, .deliver, .deliver, .park,
+            .leaderUnlink, .leaderClear, .notifyHead, .check 1 0].foldl stepFollowerNoNotify init) = true
+    ∧ stuck ([Ev.link, .link, .link, .check 0 3, .check 2 0, .deliver, .deliver, .deliver, .park,
+            .leaderUnlink, .leaderClear, .notifyHead, .check 1 0].foldl step init) = false :=
+  ⟨Blue.WcqWake.follower_forgets_notify_head_stuck, Blue.WcqWake.same_schedule_not_stuck⟩
+
+/-! non-vacuity of `every_call_returns_partial`: a reachable state with a parked caller and a
+    caller at work (the hypothesis "a caller is linked" holds); its measure, and the smaller measure
+    after the leader's next step -/
+example :
+    let s := [Ev.link, .link, .check 0 1, .check 1 0, .park].foldl step init
+    s.ents.any (·.linked) = true ∧ (nl s.ents, phi s) = (2, 6)
+      ∧ (nl (step s .deliver).ents, phi (step s .deliver)) = (2, 3) := by decide
+
+/-! non-vacuity: the window exists — the third member parks *holding an output* after the
+    hand-out notification found nobody, and is woken by its predecessor's `notify_head` -/
+example :
+    let s := [Ev.link, .link, .link, .check 0 3, .check 2 0, .deliver, .deliver, .deliver, .park,
+              .leaderUnlink, .leaderClear, .notifyHead, .check 1 0, .check 2 0].foldl step init
+    s.ents.map (·.linked) = [false, false, false] := by decide
+end wake
+
+end Blue.Props.C18
+
+#print axioms Blue.Props.C18.lru_inv_preserved
+#print axioms Blue.Props.C18.lru_inv_run
+#print axioms Blue.Props.C18.insert_within_capacity
+#print axioms Blue.Props.C18.lookup_hit
+#print axioms Blue.Props.C18.lru_map_semantics
+#print axioms Blue.Props.C18.lru_recency
+#print axioms Blue.Props.C18.size_exceeds_capacity_only_by_no_evict
+#print axioms Blue.Props.C18.waitlist_inv_run
+#print axioms Blue.Props.C18.waitlist_inv_run_source
+#print axioms Blue.Props.C18.head_is_oldest
+#print axioms Blue.Props.C18.exactly_one_head
+#print axioms Blue.Props.C18.head_handoff
+#print axioms Blue.Props.C18.slot_reuse_is_safe
+#print axioms Blue.Props.C18.core_sees_inputs_once_in_order
+#print axioms Blue.Props.C18.own_result
+#print axioms Blue.Props.C18.never_panics
+#print axioms Blue.Props.C18.core_sees_inputs_once_in_order_v
+#print axioms Blue.Props.C18.own_result_v
+#print axioms Blue.Props.C18.never_panics_v
+#print axioms Blue.Props.C18.never_stuck
+#print axioms Blue.Props.C18.every_call_returns_partial
+#print axioms Blue.Props.C18.leader_forgets_notify_head_stuck
+#print axioms Blue.Props.C18.follower_forgets_notify_head_stuck
